@@ -78,8 +78,33 @@ def analyse_function(f):
             if _setlike(a.value) and (_names(a.value) & derived):
                 stop = alist[i + 1].lineno if i + 1 < len(alist) else end
                 spans.setdefault(name, []).append((a.end_lineno, stop, a))
+    # a *sorted copy* of the requested sites (fine for slicing / canonicalizing) that orders the axes of a dense result:
+    # S = sorted(where); L = [ix(i) for i in S]; X.to_dense(L, ...)
+    sorted_hits = []
+    sorted_names = {}
+    for a in assigns:
+        if len(a.targets) == 1 and isinstance(a.targets[0], ast.Name) and a.targets[0].id not in f.params \
+                and isinstance(a.value, ast.Call) and isinstance(a.value.func, ast.Name) and a.value.func.id == "sorted" \
+                and a.value.args and (_names(a.value.args[0]) & derived) and not a.value.keywords:
+            sorted_names[a.targets[0].id] = a
+    if sorted_names:
+        lists = {}
+        for a in assigns:
+            if len(a.targets) == 1 and isinstance(a.targets[0], ast.Name):
+                v = a.value
+                if isinstance(v, ast.Call) and isinstance(v.func, ast.Name) and v.func.id in ("tuple", "list") and v.args:
+                    v = v.args[0]
+                if isinstance(v, (ast.ListComp, ast.GeneratorExp)) and any(isinstance(g.iter, ast.Name) and g.iter.id in sorted_names for g in v.generators):
+                    lists[a.targets[0].id] = (a, next(g.iter.id for g in v.generators if isinstance(g.iter, ast.Name) and g.iter.id in sorted_names))
+        for c in _own_walk(f.node):
+            if isinstance(c, ast.Call) and isinstance(c.func, ast.Attribute) and c.func.attr in ("to_dense", "to_qarray"):
+                for a_ in c.args:
+                    for y in ast.walk(a_):
+                        if isinstance(y, ast.Name) and y.id in lists:
+                            la, sname = lists[y.id]
+                            sorted_hits.append((c.lineno, sname, f"the axis list `{y.id}` of to_dense()", src_of(c)[:70]))
     if not spans:
-        return len(params), []
+        return len(params), sorted_hits
 
     def unordered(node):
         if isinstance(node, ast.Name) and node.id in spans:
@@ -114,7 +139,7 @@ def analyse_function(f):
             )
             if carries:
                 hits.append((n.lineno, n.iter.id, "for-append", src_of(n.iter)))
-    return len(params), hits
+    return len(params), hits + sorted_hits
 
 
 def rule_requested_order(ctx):
@@ -140,8 +165,8 @@ def rule_requested_order(ctx):
             for line, name, how, text in hits:
                 r.bad(Finding(
                     "requested-order", f.qualname,
-                    f"`{name}` is an unordered set of the requested sites but is consumed by {how} (`{text}`): the order of the "
-                    "result's axes follows set iteration order, not the order the caller gave",
+                    f"`{name}` is an unordered set (or a sorted copy) of the requested sites but is consumed by {how} (`{text}`): the order of the "
+                    "result's axes follows set iteration / sorted order, not the order the caller gave",
                     where=f"{f.module.relpath}:{line}", operand=f"{name}:{how}"))
         else:
             r.ok(f.qualname, sample={"function": f.qualname, "site params": [p for p in f.params if p in SITE_PARAMS]}, nontrivial=False)
